@@ -95,10 +95,14 @@ def all_generated():
 def regen_generated(gens):
     """Translators: regenerate the Coq files derived from /repo's sources (written only when changed)."""
     build_go(sorted(set(n for n, _ in gens)))
+    failed = []
     for name, target in gens:
         rc, log = run([os.path.join(BUILD, name), "-repo", REPO, "-out", os.path.join(COQ, target)], cwd=HARNESS, env=goenv(), timeout=300)
         if rc != 0:
-            raise HarnessError("translator %s failed:\n%s" % (name, log[-4000:]))
+            # the source no longer has the shape this translator reads: the generated file keeps its previous
+            # contents and the tie through it counts as broken for the properties that use it (decide())
+            failed.append((name, target, log[-2000:]))
+    return failed
 
 
 # ---------------------------------------------------------------- Coq side
@@ -381,7 +385,12 @@ def decide(pid, P, tier, seed, scratch, t0, replay_sel):
     notes = []
 
     # -- 1. translators + proofs
-    regen_generated(all_generated())
+    gen_failed = regen_generated(all_generated())
+    mine = set(t for _, t in P.get("generated", []))
+    gen_broken = ["translator %s could not regenerate %s from the current source (the code no longer has the shape it reads; the file keeps its previous contents): %s" % (n, t, l.strip()[-600:]) for n, t, l in gen_failed if t in mine]
+    for n, t, l in gen_failed:
+        if t not in mine:
+            notes.append("translator %s of another property failed (not used by %s)" % (n, pid))
     build_go(binaries_of(P))
     forbidden = scan_forbidden()
     targets = [f + "o" for f in property_files(pid, P)] + [m.replace(".", "/") + ".vo" for m in P.get("run_modules", [])]
@@ -406,6 +415,10 @@ def decide(pid, P, tier, seed, scratch, t0, replay_sel):
                 broken.append("theorem %s depends on axioms outside the declared trusted base: %s" % (t, ", ".join(extra)))
             else:
                 discharged += 1
+    if gen_broken:
+        proofs_ok = False
+        broken += gen_broken
+        discharged = 0
     if forbidden:
         proofs_ok = False
         broken.append("forbidden vernacular in the development: " + "; ".join(forbidden[:10]))
@@ -416,34 +429,40 @@ def decide(pid, P, tier, seed, scratch, t0, replay_sel):
 
     # -- 3b. extended search: a broken proof or a broken correspondence with no failing input so far ->
     # look for a concrete failing input with further seeds (the property's predicate on the implementation)
+    known = load_known()
+
+    def classify(hf, imf):
+        """splits the failing cases into recorded findings (which exist on the unchanged tree whatever else is
+        broken: never presented as the failing input of a new violation) and the rest"""
+        kf, rl = [], []
+        for f in hf + [{"stream": f["stream"], "case": f["case"], "what": f["what"], "impl_oracle": True} for f in imf]:
+            hit = None
+            for k in known.get("findings", []):
+                if k.get("property") == pid and matches_finding(k, f):
+                    hit = k
+                    break
+            if hit:
+                kf.append("KNOWN-FINDING: property=%s %s" % (pid, hit["what"]))
+            else:
+                rl.append(f)
+        return kf, rl
+
+    kf_lines, real = classify(holds_fail, impl_fail)
     searched_extra = 0
-    if (not proofs_ok or corr_fail) and not holds_fail and not impl_fail and not replay_sel:
+    if (not proofs_ok or corr_fail) and not real and not replay_sel:
         for k in range(1, int(os.environ.get("VERIF_EXTRA_SEEDS") or 4) + 1):
             try:
                 st2, cf2, hf2, if2, n2, _ = explore(pid, P, tier, seed + 1000 * k, scratch, ok, tag="_x%d" % k)
             except HarnessError:
                 break
             searched_extra += n2 + sum(s["evaluations"] for s in st2)
-            if hf2 or if2:
-                holds_fail, impl_fail = hf2, if2
+            kf2, real2 = classify(hf2, if2)
+            if real2:
+                real = real2
                 notes.append("failing input found by the extended search with seed %d" % (seed + 1000 * k))
                 break
 
     # -- 4. verdict
-    known = load_known()
-    kf_lines = []
-    real = []
-    for f in holds_fail + [{"stream": f["stream"], "case": f["case"], "what": f["what"], "impl_oracle": True} for f in impl_fail]:
-        hit = None
-        for k in known.get("findings", []):
-            if k.get("property") == pid and matches_finding(k, f):
-                hit = k
-                break
-        # a known finding is only accepted when proofs and correspondence are intact
-        if hit and proofs_ok and not corr_fail:
-            kf_lines.append("KNOWN-FINDING: property=%s %s" % (pid, hit["what"]))
-        else:
-            real.append(f)
     out_lines = []
     rc = 0
     if real:
